@@ -11,6 +11,9 @@ REPO = os.environ.get("VERIF_REPO", "/repo")
 RUST_H = os.path.join(ROOT, "harness", "rust")
 RUST_BIN = os.path.join(BUILD, "rust-target", "debug", "bpt-harness")
 ENV = dict(os.environ, CARGO_NET_OFFLINE="true", PIP_NO_INDEX="1", GOPROXY="off", BPT_REPO=REPO)
+# a generation run that does not finish in this many seconds is cut off (a changed implementation may loop for ever);
+# ./check sets it per tier, what was written until then is still compared
+GEN_TIMEOUT = int(os.environ.get("VERIF_GEN_TIMEOUT", "7200"))
 if REPO != "/repo" or ROOT != "/verif":
     # a scratch copy of /verif and/or of the repository (seeded-change experiments run beside the real checks):
     # the harness crate names its path dependency and target directory literally, so build a rewritten copy
@@ -76,7 +79,7 @@ def rust_gen(suite, seed, budget, outdir, corpus_lines):
         with open(cp, "w") as f:
             f.write("\n".join(corpus_lines) + "\n")
         args += ["--corpus", cp]
-    rc, out = _sh(args, timeout=7200, limited=True)
+    rc, out = _sh(args, timeout=GEN_TIMEOUT, limited=True)
     return {"ok": rc == 0, "log": "harness exit status %s\n%s" % (rc, out)}
 
 
@@ -171,7 +174,7 @@ def py_gen(suite, seed, budget, outdir, corpus_lines):
         with open(cp, "w") as f:
             f.write("\n".join(corpus_lines) + "\n")
         args += ["--corpus", cp]
-    rc, out = _py(args, 7200)
+    rc, out = _py(args, GEN_TIMEOUT)
     import shutil
     if os.path.exists(os.path.join(outdir, "stats.json")):
         shutil.copy(os.path.join(outdir, "stats.json"), os.path.join(outdir, "events.json"))
@@ -244,14 +247,14 @@ def c_gen(suite, seed, budget, outdir, corpus_lines):
         with open(cp, "w") as f:
             f.write("\n".join(corpus_lines) + "\n")
         args += ["--corpus", cp]
-    rc, out = _c(args, 7200)
+    rc, out = _c(args, GEN_TIMEOUT)
     _c_post(outdir, rc, out, "plain build")
     # the same operation lines under AddressSanitizer
     adir = os.path.join(outdir, "asan")
     os.makedirs(adir, exist_ok=True)
     asan_info = {"ran": False}
     if os.path.exists(os.path.join(outdir, "ops.txt")):
-        rc2, out2 = _c(["replay", os.path.join(outdir, "ops.txt"), "--variant", "asan", "--out", adir], 7200, asan=True)
+        rc2, out2 = _c(["replay", os.path.join(outdir, "ops.txt"), "--variant", "asan", "--out", adir], GEN_TIMEOUT, asan=True)
         bad = _c_post(outdir, rc2, out2, "ASan build")
         same = False
         try:
